@@ -1,5 +1,7 @@
 import Spine.C03Reg
 import Spine.GateThm
+import Spine.OpsInfo
+import Spine.DispatchTreeThm
 /-!
 # C03 — a remote write takes effect only with a binding and write permission
 
@@ -277,5 +279,82 @@ example :
     (let s := Gate.run (Gate.init Cfg.clean [eB]) [.gate 1 eB true, .gate 2 eOther true, .reg (.delete ([1], 1) 1 ([1], 1)), .apply 2, .apply 1]
      s.applied.map (·.id) = [1] ∧ s.refused = [2]) ∧
     ((Gate.run (Gate.init Cfg.clean [eB]) [.gate 1 eB false, .apply 1]).refused) = [1] := by decide
+
+/-! ## the announcement, and the device a header claims (second deepening round) -/
+
+/-- "the written function is ANNOUNCED as writable on that feature": the flag the gate reads (`writable`:
+    `Operations()[fn].Write()`) is, for every local feature and every function, exactly what the feature's detailed
+    discovery information says (`OpsInfo.announce`: one `possibleOperations` per announced function, rendered by the
+    transcription of `Operations.Information()`; write element present), whatever the read and partial flags — a
+    WRITE-ONLY function included, a function that is not announced excluded. That `OpsInfo.info` is the
+    `Information()` of the tree under test, and that `AddFunctionType` → `Information()` / `Operations()` agree on a
+    real feature, is re-checked over regenerated tables in `Props/C03Gen.lean`. -/
+theorem c03_gate_reads_the_announcement (rd : Nat → Bool × Bool) (wp : Nat → Bool) (lf : LF) (fn : Nat) :
+    writable lf fn = OpsInfo.announcedWritable (OpsInfo.announce rd wp lf) fn :=
+  OpsInfo.writable_iff_announced rd wp lf fn
+
+/-- … so the first clause, restated on the announcement: whatever changes the data was a write of a function the
+    feature announces as writable, by a writer bound at that moment (every member, every world) -/
+theorem c03_effect_only_if_announced (rd : Nat → Bool × Bool) (wp : Nat → Bool) (w : W) (p : Nat) (d : Dg)
+    (h : (processCmd w p d).1.written ≠ w.written) :
+    ∃ lf, dstF w d = some lf ∧ d.cls = .write ∧
+      OpsInfo.announcedWritable (OpsInfo.announce rd wp lf) d.fn = true ∧ (d.dst, p, d.src) ∈ w.binds := by
+  obtain ⟨lf, hl, hc, hw, hb, _⟩ := Spine.Disp.c03_effect_only_if w p d h
+  exact ⟨lf, hl, hc, by rw [← OpsInfo.writable_iff_announced]; exact hw, hb⟩
+
+/-- non-vacuity: a feature announcing 5 read-write, 6 read-only, 7 WRITE-ONLY and holding data for 8 without
+    announcing it: writable per the announcement are exactly 5 and 7 -/
+example :
+    let lf : LF := { ent := [1], feat := 1, typ := 1, role := .server, fds := [5, 6, 7, 8], ops := [(5, true), (6, false), (7, true)] }
+    let rd : Nat → Bool × Bool := fun fn => (fn ≠ 7, false)
+    [5, 6, 7, 8].map (OpsInfo.announcedWritable (OpsInfo.announce rd (fun _ => false) lf)) = [true, false, true, false] ∧
+    (OpsInfo.announce rd (fun _ => false) lf).map (·.2) = [⟨some false, some false⟩, ⟨some false, none⟩, ⟨none, some false⟩] := by decide
+
+/-- The device a header CLAIMS for its source is read by nothing: the source feature is resolved on the SENDING
+    connection, the gate compares the resolved feature — omitted, the sender's own or another peer's device address in
+    the header, the step is the same: same outputs, same registry, same data (every member, every world, every
+    datagram). With `c03_effect_only_if` (binding `(server, p, client)` of the sending connection `p`): an unbound peer
+    naming the binding holder's device is refused, a bound peer omitting its device is served. -/
+theorem c03_claimed_source_device_irrelevant (w : W) (p : Nat) (d : Dg) (sd : Option Nat) :
+    (processCmd w p { d with srcDev := sd }).2 = (processCmd w p d).2 ∧
+    (processCmd w p { d with srcDev := sd }).1.binds = (processCmd w p d).1.binds ∧
+    (processCmd w p { d with srcDev := sd }).1.written = (processCmd w p d).1.written ∧
+    (processCmd w p { d with srcDev := sd }).1.data = (processCmd w p d).1.data := by
+  have : processCmd w p { d with srcDev := sd } = processCmd w p d := by cases d; rfl
+  rw [this]; exact ⟨rfl, rfl, rfl, rfl⟩
+
+/-- non-vacuity: peer 1 holds the binding, peer 2 (same numbering) names peer 1's device and is refused; peer 1
+    omits its device and is served -/
+example :
+    let w : W := { loc := [{ ent := [1], feat := 1, typ := 1, role := .server, fds := [5], ops := [(5, true)] }],
+                   peers := fun _ => ⟨[⟨[1], 1, [5], 1, .client⟩], 0, []⟩, binds := [(([1], 1), 1, ([1], 1))], cfg := Cfg.clean }
+    let d : Dg := { src := ([1], 1), dst := ([1], 1), ctr := some 9, ref := none, cls := .write, ack := true, fn := 5, val := 3 }
+    (processCmd w 2 { d with srcDev := some 1 }).2 = [(2, .result (some 9) 1 ([1], 1) ([1], 1) (some 0))] ∧
+    (processCmd w 1 { d with srcDev := none }).2 = [(1, .result (some 9) 0 ([1], 1) ([1], 1) (some 0))] ∧
+    (processCmd w 1 { d with srcDev := none }).1.written = [(([1], 1), 5)] := by decide
+
+/-- Announced LATER: after the application announces a function writable on an existing feature (`TOp.addFn`), the
+    bound writer's write of that function passes the gate from that moment on (and did not before) — the gate reads the
+    announcement of the moment, for every history before it (`c01_history_with_local_changes` gives the responses). -/
+theorem c03_announced_later_is_writable (w : W) (a : Addr) (fn v : Nat) (lf : LF) (h : locF w a = some lf)
+    (hnm : lf.nm = false) (hrole : lf.role ≠ .client) :
+    ∃ lf', locF (tstep w (.addFn a fn true v)).1 a = some lf' ∧ (lf'.ops.any fun o => o.1 = fn) = true := by
+  have hmem := List.find?_some h
+  simp only [Bool.and_eq_true, decide_eq_true_eq] at hmem
+  refine ⟨addFnLF a fn true lf, ?_, ?_⟩
+  · show List.find? _ (w.loc.map (addFnLF a fn true)) = _
+    unfold locF at h
+    rw [List.find?_map]
+    have hcongr : ((fun f : LF => decide (f.ent = a.1) && decide (f.feat = a.2)) ∘ addFnLF a fn true) =
+        (fun f : LF => decide (f.ent = a.1) && decide (f.feat = a.2)) := by
+      funext f; simp only [Function.comp, addFnLF]; split <;> rfl
+    rw [hcongr, h]; rfl
+  · unfold addFnLF
+    split
+    · simp
+    · rename_i hc
+      simp only [hmem.1, hmem.2, hnm, decide_true, Bool.not_false, Bool.true_and, Bool.and_eq_true, decide_eq_true_eq,
+        Bool.not_eq_true', not_and, Bool.not_eq_false] at hc
+      exact hc hrole
 
 end Spine.Props.C03
